@@ -33,20 +33,22 @@ def check(pid, tier):
                     total[k] = total.get(k, 0) + v
                 nlines += len(part)
             samples.append(json.loads(lines[min(3, len(lines) - 1)]))
+        import dhcp_e2e
+        wire = dhcp_e2e.c12_e2e(run, pid)
         cov = {
             "states": run.mc["states"], "transitions": run.mc["transitions"],
-            "traces_validated_against_impl": nlines,
+            "traces_validated_against_impl": nlines + wire["frames"],
             "evaluations": nlines,
             "distinct_nontrivial": total.get("long", 0) + total.get("zero", 0) + total.get("odd", 0) + total.get("bset", 0),
             "rule": "dhcp_rt: option multisets enumerated by TLC over boundary lengths (0,1,2,254..257,509..512,765,1500) x 4 codes + seeded random multisets + messages from the decoder's image (repeated codes, pads); frame: payload lengths (all 0..1472 in thorough); bcast: flag values (all 65536 in thorough); non-trivial = message with an option >255 or =0 octets, odd payload length, flags with bit 15 set",
-            "samples": samples, "counters": total,
+            "samples": samples, "counters": total, "service_level": wire,
             "naive_encoder_refuted_by_model": (not naive["ok"]) and naive["violated"] is not None,
             "exhaustive": bool(run.thorough),
         }
         rc = finish(run, "model_checking", cov, [
             "decode/encode fidelity is decided by TLC over projections computed by the harness's own TLV walker, frame splitter and FNV digests (trusted)",
             "messages range over the decoder's image (hlen = |chaddr| <= 16, sname/file without interior NUL, option codes 1..254)",
-            "the IPv4 destination choice of recvdhcp is covered only through get_broadcast_flag (function level)",
+            "service level: real DhcpService on a veth pair; the frames it sends are captured on the client end and taken apart by the harness's own decoder (checksums recomputed); flags 0, 1, 0x4000, 0x7fff, 0x8000, 0x8001, 0xc000, 0xffff and random values on DISCOVER and REQUEST; DhcpFrameTrace decides destination, checksums, lengths",
         ])
     except ToolError as e:
         log("TOOL-ERROR: %s" % e)
